@@ -12,8 +12,14 @@ use blots_core::values::*;
 #[kani::proof]
 #[kani::unwind(4)]
 #[kani::stub(std::hash::RandomState::new, crate::util::stub_random_state_new)]
+        #[kani::stub(alloc::alloc::dealloc, crate::util::stub_dealloc)]
+        #[kani::stub(alloc::alloc::dealloc_nonnull, crate::util::stub_dealloc_nonnull)]
+        #[kani::stub(alloc::alloc::realloc, crate::util::stub_realloc)]
+        #[kani::stub(alloc::alloc::realloc_nonnull, crate::util::stub_realloc_nonnull)]
 #[kani::stub(std::backtrace::Backtrace::capture, crate::util::stub_backtrace_capture)]
 #[kani::stub(alloc::fmt::format, crate::util::stub_format)]
+        #[kani::stub(blots_core::values::Value::stringify, crate::util::stub_stringify)]
+        #[kani::stub(blots_core::units::convert, crate::util::stub_units_convert)]
 #[kani::stub(::anyhow::Error::msg, crate::util::stub_anyhow_msg_panic)]
 #[kani::stub(::anyhow::__private::format_err, crate::util::stub_anyhow_format_err_panic)]
 #[kani::stub(std::time::Instant::now, crate::util::stub_instant_now)]
@@ -22,7 +28,7 @@ pub fn c18_q_builtin_depth_guard() {
     let a: f64 = kani::any();
     let heap = arena::heap();
     let def = FunctionDef::BuiltIn(BuiltInFunction::Abs);
-    let r = def.call(Value::BuiltIn(BuiltInFunction::Abs), vec![Value::Number(a)], heap.clone(), arena::env(), depth, "");
+    let r = def.call(Value::BuiltIn(BuiltInFunction::Abs), crate::av![Value::Number(a)], heap.clone(), arena::env(), depth, "");
     if depth > 1000 {
         assert!(r.is_err());
     } else {
